@@ -1,7 +1,7 @@
 //! Verification shim: sequential, heap-free executable specification of st3::fifo (subset used).
 pub mod fifo {
     use std::cell::UnsafeCell;
-    pub const MAXCAP: usize = 2;
+    pub const MAXCAP: usize = 4;
     #[derive(Debug)]
     pub enum StealError { Empty, Busy }
     pub struct Inner<T> { pub buf: [Option<T>; MAXCAP], pub head: usize, pub len: usize }
@@ -14,7 +14,7 @@ pub mod fifo {
         pub fn new(min_capacity: usize) -> Self {
             let cap = min_capacity.next_power_of_two();
             assert!(cap <= MAXCAP);
-            Worker { q: UnsafeCell::new(Inner { buf: [None, None], head: 0, len: 0 }), cap }
+            Worker { q: UnsafeCell::new(Inner { buf: [None, None, None, None], head: 0, len: 0 }), cap }
         }
         #[allow(clippy::mut_from_ref)]
         pub fn inner(&self) -> &mut Inner<T> { unsafe { &mut *self.q.get() } }
